@@ -11,7 +11,7 @@
   Deletes are modelled from reader.go as they are:
     `batchDelete.DeleteRange`  (key-range / time-range pre-checks against the file),
     `Tombstoner.AddRange`      (FilterFn = index.ContainsKey),
-    `batchDelete.Commit → applyTombstones` (re-walks the whole tombstone log),
+    `batchDelete.Commit → applyTombstones` (walks the tombstones added since `lastAppliedOffset`),
     `indirectIndex.DeleteRange` (per-key range checks, full-key deletion when the range or
                                  the chained sorted tombstones cover the key, else a tombstone).
 -/
@@ -192,9 +192,10 @@ def RFile.deleteRange (f : RFile) (keys : List Key) (lo hi : Int) : RFile :=
     else
       -- AddRange: FilterFn = index.ContainsKey
       let present := keys.filter fun k => f.index.any fun (k', cur) => k' = k && cur.isSome
-      let log := f.log ++ present.map fun k => (k, lo, hi)
-      -- Commit → applyTombstones: every logged tombstone is applied again
-      { f with log := log, index := log.foldl f.applyEntry f.index }
+      let added := present.map fun k => (k, lo, hi)
+      -- Commit → applyTombstones: `Tombstoner.Walk` resumes at `lastAppliedOffset`, so only the
+      -- entries added by this call are applied (a freshly opened reader walks the whole file once)
+      { f with log := f.log ++ added, index := added.foldl f.applyEntry f.index }
   | _, _, _, _ => f
 
 def mkRFile (blocks : List (Key × List (Pts Int))) : RFile :=
